@@ -3,7 +3,7 @@ use crate::rng::Rng;
 use yata::core::Candle;
 
 pub const CLASSES: &[&str] = &[
-	"alphabet", "zeros", "walk", "noise", "flat_regime", "scale_jump", "monotone", "spikes", "plateaus", "impulse",
+	"alphabet", "zeros", "walk", "noise", "flat_regime", "scale_jump", "monotone", "spikes", "plateaus", "impulse", "tiny",
 ];
 
 /// a value stream of one class
@@ -78,6 +78,21 @@ pub fn stream(rng: &mut Rng, len: usize, class: &str) -> Vec<f64> {
 				} else {
 					v.push(base + 0.01 * rng.gauss());
 				}
+			}
+		}
+		// very small units (absolute thresholds such as `> EPSILON` in place of `!= 0` show here), optionally after an
+		// ordinary-scale prefix
+		"tiny" => {
+			let s = *rng.pick(&[1e-21, 8.470329472543003e-22, 1e-17, 1e-30]);
+			let c = *rng.pick(&[0.0, 1.0, 5.0]);
+			let prefix = if rng.chance(1, 3) { len / 4 } else { 0 };
+			let mut x = c;
+			for i in 0..len {
+				x += 0.3 * rng.gauss();
+				if rng.chance(1, 9) {
+					x = c + (rng.range(-3, 3) as f64);
+				}
+				v.push(if i < prefix { 100.0 + x } else { s * x });
 			}
 		}
 		// a single unit impulse on a zero background: the outputs are the weight profile
